@@ -1,5 +1,7 @@
+pub mod closures;
 pub mod common;
 pub mod evalorder;
+pub mod generics;
 pub mod lattice;
 pub mod numbers;
 pub mod parse_rt;
@@ -27,6 +29,8 @@ pub fn all() -> Vec<Box<dyn Family>> {
         Box::new(evalorder::EvalOrder),
         Box::new(schedules::Schedules),
         Box::new(numbers::Numbers),
+        Box::new(closures::Closures),
+        Box::new(generics::Generics),
     ]
 }
 
